@@ -18,7 +18,9 @@ from mc import histories as H
 from mc.core import Partial, V
 from mc.outcome import call
 from mc.refmodel import Ref1D, RefND, eq_exact
-from mc.snapshot import fl, snap
+from fractions import Fraction
+
+from mc.snapshot import content_snap, diff, fl, snap
 
 ID = "C03"
 LEVEL = "model_checking"
@@ -535,12 +537,293 @@ def batch_check(sys_):
     return hook
 
 
+# ---------------------------------------------------------------------------------------------
+# E1 "entry paths" unit: dimensions of the input that the histories above hold fixed - the numeric TYPE of the
+# weights, NaN asked of find_bin, tracking switched off through every constructor, contents and squared errors
+# that were assigned from one array. Every case: all entry paths agree with the exact model.
+# ---------------------------------------------------------------------------------------------
+
+WEIGHT_TYPES = {
+    "int8": [100, 100, 27], "int16": [200, 30000, 3], "int32": [70000, 5, 70000], "uint8": [200, 200, 1], "uint16": [60000, 2, 300],
+    "float16": [300.0, 0.5, 300.0], "float32": [1e20, 0.5, 3.0], "bool": [True, True, False], "int64": [3, 2, 1], "float64": [0.5, 0.25, 3.0],
+}
+ENTRY_EDGES = [0.0, 1.0, 2.0, 3.0]
+ENTRY_POINTS = {  # name -> points (1D values; ND rows repeat the value on every axis)
+    "one_bin": [0.5, 0.5, 0.5], "spread": [0.5, 1.5, 2.5], "one_outside": [0.5, 7.5, 0.5], "all_outside": [-3.0, 7.5, 9.0],
+}
+
+
+def entry_cases():
+    for dim in (1, 2, 3):
+        for wt in WEIGHT_TYPES:
+            for pts in ENTRY_POINTS:
+                for path in ("fill", "fill_n", "fill_n_chunks", "facade", "class_facade"):
+                    if wt == "bool" and path == "fill":
+                        continue  # a single bool is not a weight (refused); arrays of them count as 0 / 1
+                    yield {"entry": "weights", "dim": dim, "wtype": wt, "points": pts, "path": path}
+    for dim in (1, 2, 3):
+        for cls in ("plain", "gapped", "adaptive", "empty_bins"):
+            yield {"entry": "find_bin_nan", "dim": dim, "cls": cls}
+    for op in ("fill_gap", "fill_n_gap", "fill_below", "fill_above", "fill_n_outside", "fill_nan"):
+        for start in ("empty", "filled"):
+            yield {"entry": "nokeep", "dim": 1, "op": op, "start": start}
+    for dim in (2, 3):
+        for fn in ("facade", "facade_cols", "from_calculate_frequencies", "class_fill_n"):
+            for after in ("nothing", "fill_outside", "fill_n_outside"):
+                yield {"entry": "nd_nokeep", "dim": dim, "fn": fn, "after": after}
+    for dim in (1, 2):
+        for how in ("errors2_is_frequencies", "frequencies_is_errors2", "ctor_same_array", "both_from_other"):
+            for op in ("fill", "fill_weighted", "fill_n"):
+                yield {"entry": "alias", "dim": dim, "how": how, "op": op}
+
+
+def eval_entry(case):
+    from physt import h, h1, h2, h3
+    from physt.binnings import StaticBinning
+    from physt.types import Histogram1D, Histogram2D, HistogramND
+
+    kind = case["entry"]
+    dim = case["dim"]
+    out = []
+    edges = np.array(ENTRY_EDGES)
+
+    def klass():
+        return {1: Histogram1D, 2: Histogram2D, 3: HistogramND}[dim]
+
+    def empty(bins=None, **kw):
+        b = StaticBinning(edges if bins is None else np.array(bins))
+        return Histogram1D(b, **kw) if dim == 1 else klass()([StaticBinning(edges if bins is None else np.array(bins)) for _ in range(dim)], **kw)
+
+    def row(v):
+        return v if dim == 1 else np.array([v] * dim)
+
+    def rows(vs):
+        return np.array(vs, dtype=float) if dim == 1 else np.array([[v] * dim for v in vs], dtype=float)
+
+    def state(hh):
+        d = {"f": [fl(x) for x in np.asarray(hh.frequencies).ravel().tolist()], "e2": [fl(x) for x in np.asarray(hh.errors2).ravel().tolist()]}
+        if dim == 1:
+            d["under"], d["over"] = fl(hh.underflow), fl(hh.overflow)
+        else:
+            d["missed"] = fl(hh.missed)
+        return d
+
+    if kind == "weights":
+        wt, pts = case["wtype"], ENTRY_POINTS[case["points"]]
+        wvals = WEIGHT_TYPES[wt]
+        warr = np.array(wvals, dtype=np.bool_ if wt == "bool" else np.dtype(wt))
+        exact = [Fraction(float(x)) for x in warr.tolist()]
+        n = len(ENTRY_EDGES) - 1
+        f = [Fraction(0)] * n
+        e2 = [Fraction(0)] * n
+        under = over = Fraction(0)
+        for v, w in zip(pts, exact):
+            if v < 0:
+                under += w
+            elif v > 3:
+                over += w
+            else:
+                i = min(int(v), n - 1)
+                f[i] += w
+                e2[i] += w * w
+        path = case["path"]
+
+        def build():
+            if path in ("fill", "fill_n", "fill_n_chunks"):
+                hh = empty()
+                if path == "fill":
+                    for v, w in zip(pts, warr):
+                        hh.fill(row(v), w)
+                elif path == "fill_n":
+                    hh.fill_n(rows(pts), warr)
+                else:
+                    hh.fill_n(rows(pts[:1]), warr[:1])
+                    hh.fill_n(rows(pts[1:]), warr[1:])
+                return hh
+            bins = StaticBinning(edges) if path == "class_facade" else edges
+            if dim == 1:
+                return h1(np.array(pts), bins, weights=warr)
+            if dim == 2:
+                return h2(np.array(pts), np.array(pts), [bins, StaticBinning(edges) if path == "class_facade" else edges], weights=warr)
+            return h(rows(pts), [StaticBinning(edges) if path == "class_facade" else edges for _ in range(3)], weights=warr)
+
+        res = call(build)
+        sig = f"entry|weights|{wt}|{1 if dim == 1 else "N"}D"
+        if not res.ok:
+            out.append(V("must_succeed", f"{sig}|{exc_sig(res.exc)}", case, "a histogram holding the weights", res.describe()))
+            return out
+        hh = res.value
+        got_f = np.asarray(hh.frequencies)
+        got_e = np.asarray(hh.errors2)
+        idx = lambda i: i if dim == 1 else (i,) * dim  # noqa: E731
+        approx = wt in ("float16", "float32")  # the weights themselves are exact, sums of a few of them as well
+        for i in range(n):
+            gf, ge = float(got_f[idx(i)]), float(got_e[idx(i)])
+            if not math.isfinite(gf) or not math.isfinite(ge):
+                out.append(V("bin_content", f"{sig}|not_finite", case, {"f": [float(x) for x in f], "e2": [float(x) for x in e2]}, {"f": got_f.tolist(), "e2": got_e.tolist()}))
+                break
+            if Fraction(gf) != f[i] and not (approx and abs(gf - float(f[i])) <= 1e-6 * abs(float(f[i]))):
+                out.append(V("bin_content", f"{sig}|content", case, [float(x) for x in f], got_f.tolist()))
+                break
+            if Fraction(ge) != e2[i] and not (approx and math.isfinite(ge) and abs(ge - float(e2[i])) <= 1e-6 * abs(float(e2[i]))):
+                out.append(V("squared_errors", f"{sig}|errors2", case, [float(x) for x in e2], got_e.tolist()))
+                break
+        off = got_f.sum() - sum(float(got_f[idx(i)]) for i in range(n))
+        if dim > 1 and off != 0:
+            out.append(V("bin_content", f"{sig}|off_diagonal", case, 0, float(off)))
+        if dim == 1:
+            uo = (float(hh.underflow), float(hh.overflow))
+            if not all(math.isfinite(x) for x in uo) or (Fraction(uo[0]), Fraction(uo[1])) != (under, over):
+                out.append(V("missed", f"{sig}|underflow_overflow", case, [float(under), float(over)], [fl(hh.underflow), fl(hh.overflow)]))
+        else:
+            m = float(hh.missed)
+            want = float(under + over)
+            if not (m == want or (approx and abs(m - want) <= 1e-6 * abs(want))):
+                out.append(V("missed", f"{sig}|missed", case, want, fl(hh.missed)))
+        return out
+
+    if kind == "find_bin_nan":
+        cls = case["cls"]
+        if cls == "plain":
+            hh = empty()
+        elif cls == "gapped":
+            hh = empty([[0.0, 1.0], [2.0, 3.0]])
+        elif cls == "empty_bins":
+            hh = empty()[0:0] if dim == 1 else empty()
+        else:
+            hh = (h1(np.array([0.5, 1.5]), "fixed_width", bin_width=1.0, adaptive=True) if dim == 1 else
+                  h(rows([0.5, 1.5]), "fixed_width", bin_width=1.0, adaptive=True))
+        before = snap(hh)
+        points = [row(NAN)] if dim == 1 else [np.array([NAN] * dim), np.array([0.5] * (dim - 1) + [NAN]), np.array([NAN] + [0.5] * (dim - 1))]
+        for pnt in points:
+            r1 = call(hh.find_bin, pnt)
+            c = hh.copy()
+            r2 = call(c.fill, pnt)
+            sig = f"entry|find_bin_nan|{cls}|{dim if dim == 1 else 'N'}D"
+            if r1.ok != r2.ok or (r1.ok and r1.value != r2.value):
+                out.append(V("find_bin_equals_fill", f"{sig}|differs", case, "fill: " + r2.describe(), "find_bin: " + r1.describe()))
+            if snap(hh) != before:
+                out.append(V("find_bin_pure", f"{sig}|changed", case, "unchanged", diff(before, snap(hh))))
+            if r2.ok and content_snap(c) != content_snap(hh):
+                out.append(V("nan_skipped", f"{sig}|fill_nan_changed_contents", case, content_snap(hh), content_snap(c)))
+        return out
+
+    if kind == "nokeep":
+        hh = Histogram1D(StaticBinning(np.array([[0.0, 1.0], [2.0, 3.0]])), keep_missed=False)
+        if case["start"] == "filled":
+            hh.fill_n(np.array([0.5, 2.5, 2.5]))
+        # (the dtype may be promoted by a float weight that is then not counted, and statistics are C14's subject)
+        before = (content_snap(hh), repr(hh.to_dict().get("missed")), repr(hh.missed))
+        op = case["op"]
+        res = call({"fill_gap": lambda: hh.fill(1.5), "fill_n_gap": lambda: hh.fill_n(np.array([1.5, 1.25])), "fill_below": lambda: hh.fill(-4.0),
+                    "fill_above": lambda: hh.fill(9.0, 2.5), "fill_n_outside": lambda: hh.fill_n(np.array([-4.0, 9.0]), np.array([0.5, 2.0])),
+                    "fill_nan": lambda: hh.fill(NAN)}[op])
+        after = (content_snap(hh), repr(hh.to_dict().get("missed")), repr(hh.missed))
+        if not res.ok:
+            out.append(V("must_succeed", f"entry|nokeep|{op}|{exc_sig(res.exc)}", case, "accepted, nothing changes", res.describe()))
+        elif after != before:
+            out.append(V("untracked_changes_nothing", f"entry|nokeep|{op}|changed", case, list(before[1:]), list(after[1:]) + [diff(before[0], after[0])]))
+        return out
+
+    if kind == "nd_nokeep":
+        pts = rows([0.5, 1.5, 7.5])
+        bins = [StaticBinning(edges) for _ in range(dim)]
+        fn = case["fn"]
+
+        def build():
+            if fn == "facade":
+                return h(pts, bins, keep_missed=False)
+            if fn == "facade_cols":
+                cols = [pts[:, i] for i in range(dim)]
+                return h2(*cols, bins, keep_missed=False) if dim == 2 else h3(cols, bins, keep_missed=False)
+            if fn == "from_calculate_frequencies":
+                return klass().from_calculate_frequencies(pts, bins, keep_missed=False)
+            hh = klass()(bins, keep_missed=False)
+            hh.fill_n(pts)
+            return hh
+
+        res = call(build)
+        sig = f"entry|nd_nokeep|{fn}"
+        if not res.ok:
+            out.append(V("must_succeed", f"{sig}|{exc_sig(res.exc)}", case, "a histogram", res.describe()))
+            return out
+        hh = res.value
+        if case["after"] == "fill_outside":
+            hh.fill(np.array([9.0] * dim), 2)
+        elif case["after"] == "fill_n_outside":
+            hh.fill_n(rows([9.0, -1.0]))
+        if hh.keep_missed is not False:
+            out.append(V("tracking_off", f"{sig}|keep_missed_ignored", case, False, hh.keep_missed))
+        if float(hh.missed) != 0.0:
+            out.append(V("untracked_changes_nothing", f"{sig}|missed_recorded|after={case['after']}", case, 0, fl(hh.missed)))
+        if float(hh.total) != 2.0:
+            out.append(V("bin_content", f"{sig}|total", case, 2, fl(hh.total)))
+        return out
+
+    if kind == "alias":
+        how, op = case["how"], case["op"]
+        src = empty()
+        src.fill_n(rows([0.5, 1.5, 1.5]))
+        if how == "errors2_is_frequencies":
+            hh = src
+            hh.errors2 = hh.frequencies
+            others = []
+        elif how == "frequencies_is_errors2":
+            hh = src
+            hh.frequencies = hh.errors2
+            others = []
+        elif how == "ctor_same_array":
+            arr = np.array(src.frequencies)
+            hh = klass()(src.binning if dim == 1 else src.binnings, frequencies=arr, errors2=arr)
+            others = []
+        else:
+            hh = empty()
+            hh.frequencies = src.frequencies
+            hh.errors2 = src.errors2
+            others = [(src, state(src))]
+        f0 = [Fraction(x) for x in np.asarray(hh.frequencies).ravel().tolist()]
+        e0 = [Fraction(x) for x in np.asarray(hh.errors2).ravel().tolist()]
+        flat = 1 if dim == 1 else 1 * 3 + 1  # the cell of the value 1.5 (on every axis)
+        if op == "fill":
+            hh.fill(row(1.5))
+            dw, dw2 = Fraction(1), Fraction(1)
+        elif op == "fill_weighted":
+            hh.fill(row(1.5), 3)
+            dw, dw2 = Fraction(3), Fraction(9)
+        else:
+            hh.fill_n(rows([1.5, 1.5]), np.array([3, 2]))
+            dw, dw2 = Fraction(5), Fraction(13)
+        f0[flat] += dw
+        e0[flat] += dw2
+        gf = [Fraction(float(x)) if math.isfinite(float(x)) else None for x in np.asarray(hh.frequencies).ravel().tolist()]
+        ge = [Fraction(float(x)) if math.isfinite(float(x)) else None for x in np.asarray(hh.errors2).ravel().tolist()]
+        sig = f"entry|alias|{how}|{op}"
+        if gf != f0 or ge != e0:
+            out.append(V("bin_content", f"{sig}|one_entry_counted_twice", case, {"f": [float(x) for x in f0], "e2": [float(x) for x in e0]},
+                         {"f": [fl(x) for x in np.asarray(hh.frequencies).ravel().tolist()], "e2": [fl(x) for x in np.asarray(hh.errors2).ravel().tolist()]}))
+        for o, st0 in others:
+            if state(o) != st0:
+                out.append(V("source_untouched", f"{sig}|source_changed", case, st0, state(o)))
+        return out
+    raise ValueError(kind)
+
+
 def units(tier, seed):
-    return [{"config": c} for c in configs(tier)]
+    return [{"config": c} for c in configs(tier)] + [{"entry_paths": True}]
 
 
 def run_unit(unit, ctx):
     p = Partial()
+    if unit.get("entry_paths"):
+        case = None
+        for case in entry_cases():
+            vs = eval_entry(case)
+            p.ev(True)
+            p.states += 1
+            p.outcome("entry:" + case["entry"])
+            p.extend(vs)
+        p.sample(case)
+        return p
     sys_ = FillSystem(unit["config"])
     seen = H.bfs(sys_, p, ctx, on_new_state=batch_check(sys_))
     H.dfs_validate(sys_, p, seen, unit["config"]["dfs"], ctx, op_filter=lambda op: op[0] != "find_bin" and not (op[0] == "fill_n" and len(op[1]) > 1))
@@ -551,6 +834,8 @@ def run_unit(unit, ctx):
 
 
 def replay(case):
+    if "entry" in case:
+        return eval_entry(case)
     sys_ = FillSystem(case["config"])
     op = case.get("op")
     if op and op[0] == "construct_batch":
